@@ -50,7 +50,8 @@ def run(prog, cache=None, flags=None):
     functions = env.mods()[0]
     try:
         _, stack, c = functions.run_script(prog, cache or {},
-                                           additional_flags=flags or {})
+                                           additional_flags=flags or {},
+                                           **env.roomy_limits(prog))
         return list(stack.deque), None
     except BaseException as e:
         return None, e
@@ -337,8 +338,9 @@ def judge_tuple(ctx, rng, j):
 def auth(scripts, cache):
     functions = env.mods()[0]
     try:
-        return functions.run_auth_scripts([bytes(s) for s in scripts],
-                                          dict(cache))
+        ss = [bytes(s) for s in scripts]
+        return functions.run_auth_scripts(ss, dict(cache),
+                                          **env.roomy_limits(*ss))
     except BaseException as e:
         return e
 
